@@ -391,6 +391,11 @@ def run_check(prop: str, tier: str, seed: int) -> int:
     except HarnessError as e:
         print(f"HARNESS-ERROR property={prop}: {e}", file=sys.stderr)
         return 2
+    except Exception as e:  # noqa: BLE001  (a crash of the machinery is never a verdict)
+        import traceback
+
+        print(f"HARNESS-ERROR property={prop}: unexpected {type(e).__name__}: {e}\n{traceback.format_exc()}", file=sys.stderr)
+        return 2
 
 
 def replay(path: str) -> int:
